@@ -9,6 +9,8 @@ import Tw.Drv.Util
   accumulator), `t` calls `take_info`. Output: the per-step results and the final `get_info`.
   (`mf` marks a request whose parts are all the parts of one well-formed info: the Rust side then
   also evaluates the C18 merge oracle; the model treats both alike.)
+* `hs <k> <prefix> <suffix> <alphabet> <maxlen>`: the `parse()` of kind `k` on `prefix ++ w ++ suffix`
+  for every string `w` over the alphabet up to the length, results hashed.
 * `mh|mfh <n> <k:hex>×n <maxlen>`: every step sequence over the part indices of length 1..maxlen, in
   lexicographic order per length, each output folded into FNV-1a. -/
 namespace Tw.Drv.Browse
@@ -143,8 +145,37 @@ def mergeHash (parts : Array (Option PartialInfo)) (n maxLen : Nat) : UInt64 := 
       h := fnvByte h 10
   return h
 
+def kindOfChar (s : String) : Option InfoKind :=
+  match s with
+  | "5" => some .info5 | "6" => some .info6 | "p" => some .info6Ddper | "d" => some .info664
+  | "x" => some .info6Ex | "m" => some .info6ExMore | "7" => some .info7
+  | _ => none
+
+/-- `hs`: every string `w` over `alphabet` of length `0..maxLen` (by length, then by index in base
+`|alphabet|`, most significant digit first), payload `pre ++ w ++ suf`, results hashed -/
+def sweepHash (k : InfoKind) (pre suf alphabet : List UInt8) (maxLen : Nat) : Option UInt64 := Id.run do
+  let mut h := fnvOffset
+  let a := alphabet.toArray
+  let n := a.size
+  for len in [0:maxLen + 1] do
+    for c in [0:n ^ len] do
+      let w := (List.range len).map fun j => a.getD ((c / n ^ (len - 1 - j)) % n) 0
+      match infoResult k (pre ++ w ++ suf) with
+      | none => return none
+      | some r =>
+        h := fnvString h r
+        h := fnvByte h 10
+  return some h
+
 def handle (toks : List String) : String :=
   match toks with
+  | ["hs", k, pre, suf, alpha, ml] =>
+    match kindOfChar k, parseHex pre, parseHex suf, parseHex alpha, parseNat ml with
+    | some k, some pre, some suf, some alpha, some ml =>
+      match sweepHash k pre suf alpha ml with
+      | some h => s!"h {h}"
+      | none => "panic"
+    | _, _, _, _, _ => "bad-op"
   | ["p", h] =>
     match parseHex h with
     | some bs => parseLine bs
